@@ -404,7 +404,10 @@ class CSRStorage(_CompoundCSR):
     def do_finalize(self, busword, ordering):
         nwords = (self.size + busword - 1)//busword
         if nwords > 1 and self.atomic_write:
-            backstore = Signal(self.size - busword, name=self.name + "_backstore")
+            # The word at the last address commits: word 0 in big ordering, word nwords-1 in little ordering.
+            last_word    = 0 if ordering == "big" else nwords - 1
+            backstore_lo = busword if ordering == "big" else 0
+            backstore    = Signal(self.size - min(self.size - last_word*busword, busword), name=self.name + "_backstore")
         for i in reversed(range(nwords)) if ordering == "big" else range(nwords):
             nbits = min(self.size - i*busword, busword)
             sc    = CSR(nbits, self.name + str(i) if nwords else self.name)
@@ -415,10 +418,12 @@ class CSRStorage(_CompoundCSR):
             self.comb += sc.w.eq(self.storage[lo:hi])
             # write
             if nwords > 1 and self.atomic_write:
-                if i:
-                    self.sync += If(sc.re, backstore[lo-busword:hi-busword].eq(sc.r))
-                else:
+                if i != last_word:
+                    self.sync += If(sc.re, backstore[lo-backstore_lo:hi-backstore_lo].eq(sc.r))
+                elif ordering == "big":
                     self.sync += If(sc.re, self.storage.eq(Cat(sc.r, backstore)))
+                else:
+                    self.sync += If(sc.re, self.storage.eq(Cat(backstore, sc.r)))
             else:
                 self.sync += If(sc.re, self.storage[lo:hi].eq(sc.r))
         self.sync += self.re.eq(sc.re)
